@@ -28,6 +28,18 @@ static NEXT_SLOT: AtomicUsize = AtomicUsize::new(1);
 thread_local! {
     static SLOT: Cell<usize> = const { Cell::new(0) };
     static IN_SCOPE: Cell<bool> = const { Cell::new(false) };
+    static GUARD: Cell<bool> = const { Cell::new(false) };
+}
+
+/// bytes appended to guarded blocks
+const TAIL: usize = 32;
+const TAIL_BYTE: u8 = 0xC7;
+/// fresh guarded memory is filled with this value (same as wlcore::ring::POISON)
+pub const POISON: u8 = 0xEE;
+const GUARDED_BIT: u64 = 1 << 17;
+
+fn guard_on() -> bool {
+    GUARD.try_with(|s| s.get()).unwrap_or(false)
 }
 
 pub struct Counting;
@@ -69,16 +81,24 @@ unsafe impl GlobalAlloc for Counting {
         if layout.align() > HDR {
             return System.alloc(layout);
         }
-        let Ok(full) = Layout::from_size_align(layout.size() + HDR, HDR) else {
+        let counted = in_scope();
+        let guarded = counted && guard_on();
+        let extra = if guarded { TAIL } else { 0 };
+        let Ok(full) = Layout::from_size_align(layout.size() + HDR + extra, HDR) else {
             return std::ptr::null_mut();
         };
         let base = System.alloc(full);
         if base.is_null() {
             return base;
         }
-        let counted = in_scope();
         let slot = if counted { my_slot() } else { 0 };
-        (base as *mut u64).write(MAGIC | ((counted as u64) << 16) | slot as u64);
+        if guarded {
+            std::ptr::write_bytes(base.add(HDR), POISON, layout.size());
+            std::ptr::write_bytes(base.add(HDR + layout.size()), TAIL_BYTE, TAIL);
+        }
+        (base as *mut u64).write(
+            MAGIC | ((counted as u64) << 16) | if guarded { GUARDED_BIT } else { 0 } | slot as u64,
+        );
         (base as *mut u64).add(1).write(layout.size() as u64);
         if counted {
             account(slot, layout.size() as i64, layout.size() as u64);
@@ -117,9 +137,10 @@ unsafe impl GlobalAlloc for Counting {
             let slot = (tag & 0xFFFF) as usize;
             account(slot, -(layout.size() as i64), 0);
         }
+        let extra = if tag & GUARDED_BIT != 0 { TAIL } else { 0 };
         System.dealloc(
             base,
-            Layout::from_size_align_unchecked(layout.size() + HDR, HDR),
+            Layout::from_size_align_unchecked(layout.size() + HDR + extra, HDR),
         );
     }
 
@@ -129,6 +150,15 @@ unsafe impl GlobalAlloc for Counting {
         }
         let base = ptr.sub(HDR);
         let tag = (base as *mut u64).read();
+        if tag & GUARDED_BIT != 0 {
+            // keep it simple for guarded blocks: new block, copy, free
+            let new = self.alloc(Layout::from_size_align_unchecked(new_size, layout.align()));
+            if !new.is_null() {
+                std::ptr::copy_nonoverlapping(ptr, new, layout.size().min(new_size));
+                self.dealloc(ptr, layout);
+            }
+            return new;
+        }
         let new_base = System.realloc(
             base,
             Layout::from_size_align_unchecked(layout.size() + HDR, HDR),
@@ -153,6 +183,42 @@ unsafe impl GlobalAlloc for Counting {
 /// Allocations made by this thread from now on are (not) attributed to the library under test
 pub fn track(on: bool) {
     let _ = IN_SCOPE.try_with(|s| s.set(on));
+}
+
+/// Blocks allocated by this thread inside the library scope from now on are filled with [POISON] and get guard bytes behind them
+pub fn guard(on: bool) {
+    let _ = GUARD.try_with(|s| s.set(on));
+}
+
+/// Size of the live block at `ptr` as requested by its owner. `ptr` must have been returned by this allocator.
+///
+/// # Safety
+/// `ptr` must point to a live block of this allocator with alignment <= 16
+pub unsafe fn block_size(ptr: usize) -> Option<usize> {
+    let base = (ptr as *const u8).sub(HDR);
+    let tag = (base as *const u64).read();
+    if tag & 0xFFFF_FFFF_FFF0_0000 != MAGIC {
+        return None;
+    }
+    Some((base as *const u64).add(1).read() as usize)
+}
+
+/// Are the header in front of the block and the guard bytes behind it untouched?
+///
+/// # Safety
+/// `ptr` must point to a live block of this allocator with alignment <= 16
+pub unsafe fn guards_intact(ptr: usize) -> bool {
+    let base = (ptr as *const u8).sub(HDR);
+    let tag = (base as *const u64).read();
+    if tag & 0xFFFF_FFFF_FFF0_0000 != MAGIC {
+        return false;
+    }
+    if tag & GUARDED_BIT == 0 {
+        return true;
+    }
+    let size = (base as *const u64).add(1).read() as usize;
+    let tail = std::slice::from_raw_parts(base.add(HDR + size), TAIL);
+    tail.iter().all(|b| *b == TAIL_BYTE)
 }
 
 /// Run `f` with allocation tracking on
